@@ -423,7 +423,8 @@ class Harness:
         elif placement == "include_handler":
             kw["include_error_handler"] = lambda context, error: True
         elif placement in ("error_handler_false", "error_handler_false_base"):
-            kw["error_handler"] = lambda context, error: False
+            # declines by a falsy result that is not False: a handler that forgot its return statement
+            kw["error_handler"] = (lambda context, error: False) if placement.endswith("_base") else (lambda context, error: None)
         elif placement == "include_handler_false":
             kw["include_error_handler"] = lambda context, error: None
         lk = TemplateLookup(**kw)
